@@ -304,6 +304,53 @@ def array_layouts(ck, db):
                     ck.bad("raised:array-layout", case, {"error": "%s: %s" % (type(ex).__name__, str(ex)[:160])})
 
 
+def big_integers_and_masks(ck, db):
+    """(1) integer ndarrays whose amounts, re-expressed in the left operand's smaller unit, leave the integer dtype's range
+    (40 000 km2 in m2 does not fit an int32): the sum is computed on the amounts, not in the container's arithmetic.
+    (2) masked arrays as operands: what is masked stays masked, what is not is the sum."""
+    import numpy as np
+    from barril.units import Array
+
+    ctx = ck.ctx
+    for dt in (np.int32, np.int64):
+        for u, v, lv, rv in (("m", "km", [5, 7, 11], [1, 3000, 40000]), ("cm", "m", [5, 7, 11], [1, 30000, 20000]), ("s", "h", [1, 2, 3], [1, 700, 9000])):
+            for e in (1, 2):
+                ctx.ev()
+                case = {"dtype": dt.__name__, "units": [u, v], "exponent": e, "left": lv, "right": rv}
+                ctx.nt(("big integers", dt.__name__, u, v, e))
+                try:
+                    a, b = Array(np.array(lv, dtype=dt), u), Array(np.array(rv, dtype=dt), v)
+                    if e == 2:
+                        a, b = a * Array(np.array([1, 1, 1], dtype=dt), u), b * Array(np.array([1, 1, 1], dtype=dt), v)
+                    qt = db.GetQuantityType(u)
+                    k = (db.Convert(qt, v, u, 1.0)) ** e
+                    for sym, res, want in (("+", a + b, [x + y * k for x, y in zip(lv, rv)]), ("-", a - b, [x - y * k for x, y in zip(lv, rv)])):
+                        got = [float(t) for t in res.GetValues()]
+                        if not all(abs(g - w) <= 1e-9 * abs(w) for g, w in zip(got, want)):
+                            ck.bad("big-integer-operand:value:%s" % sym, case, {"got": got, "want": want})
+                except Exception as ex:
+                    ck.bad("raised:big-integer-operand", case, {"error": "%s: %s" % (type(ex).__name__, str(ex)[:160])})
+    for u, v in (("m", "cm"), ("K", "degC"), ("m", "m")):
+        qt = db.GetQuantityType(u)
+        for lm, rm in (([False] * 4, [False, True, False, True]), ([True, False, False, False], [False] * 4), ([False, True, False, False], [False, True, True, False])):
+            for sym, sign in (("+", 1), ("-", -1)):
+                ctx.ev()
+                case = {"masked operands": True, "units": [u, v], "left mask": lm, "right mask": rm, "op": sym}
+                ctx.nt(("masked operands", u, v, str(lm), str(rm), sym))
+                try:
+                    la, ra = np.ma.masked_array([1.0, 2.0, 3.0, 4.0], mask=lm), np.ma.masked_array([10.0, 20.0, 30.0, 40.0], mask=rm)
+                    res = (Array(la, u) + Array(ra, v)) if sign == 1 else (Array(la, u) - Array(ra, v))
+                    got = res.GetValues()
+                    want_mask = [p or q_ for p, q_ in zip(lm, rm)]
+                    want = [x + sign * db.Convert(qt, v, u, y) for x, y in zip([1.0, 2.0, 3.0, 4.0], [10.0, 20.0, 30.0, 40.0])]
+                    gm = list(np.ma.getmaskarray(got)) if np.ma.isMaskedArray(got) else None
+                    ok = gm == want_mask and all(abs(float(got[i]) - want[i]) <= 1e-9 * (abs(want[i]) + 1) for i in range(4) if not want_mask[i])
+                    if not ok:
+                        ck.bad("masked-operand:value-or-mask:%s" % sym, case, {"got": repr(got)[:200], "want": want, "want_mask": want_mask})
+                except Exception as ex:
+                    ck.bad("raised:masked-operand", case, {"error": "%s: %s" % (type(ex).__name__, str(ex)[:160])})
+
+
 def cancelling_categories(ck, db, r, n):
     """a right operand whose categories partly cancel inside one quantity type (length**2 / diameter is a length, its
     quantity-type string reads 'length') added to a plain amount of that type in another unit - Scalars and Arrays."""
@@ -392,6 +439,7 @@ def run(ctx):
             integer_ndarray_operands(ck, db)
             zero_derived_operands(ck, db)
             array_layouts(ck, db)
+            big_integers_and_masks(ck, db)
     ctx.inconclusive_if(probe.COUNTS["UnitDatabase.Sum"] == 0 or probe.COUNTS["UnitDatabase.Subtract"] == 0, "Sum/Subtract never reached")
 
 
